@@ -245,6 +245,62 @@ fn sequences(alphabet: Vec<Ev>, depth: usize, worker: usize, workers: usize) -> 
         })
 }
 
+/// A cancellation while MANY other operations are outstanding (31, 32, 33, 63, 64, 65, 127, 128, 130,
+/// 300): the abandoned operation is the oldest / in the middle / the newest; cancelled before its
+/// first acknowledgement or (QoS 2) between the phases; Receive Maximum 1 or unlimited.
+pub fn crowded_cancellations(worker: usize, workers: usize, thorough: bool) -> Vec<Scenario> {
+    let ok = Deco::default();
+        let mut crowded = vec![];
+        let mut k = 0;
+        let sizes: Vec<usize> = if thorough { vec![31, 32, 33, 63, 64, 65, 127, 128, 129, 130, 255, 256, 257, 300] } else { vec![31, 32, 33, 63, 64, 65, 128, 130] };
+    for n in sizes {
+            for kind in [OpKind::Pub2, OpKind::Pub1, OpKind::Sub(0)] {
+                for between in [false, true] {
+                    for pos in [0usize, n / 2, n] {
+                        for r in [Some(1u16), None] {
+                            k += 1;
+                            if k % workers != worker || (between && kind != OpKind::Pub2) {
+                                continue;
+                            }
+                            let mut events = vec![];
+                            let filler = |i: usize| match i % 3 {
+                                0 => OpKind::Ping,
+                                1 => OpKind::Sub(0),
+                                _ => OpKind::Unsub(1),
+                            };
+                            for i in 0..pos {
+                                events.push(Ev::Start { h: 0, kind: filler(i), settle: false, solo: false });
+                            }
+                            events.push(Ev::Settle);
+                            events.push(Ev::Start { h: 0, kind, settle: false, solo: false });
+                            events.push(Ev::Settle); // written
+                            if between {
+                                // PUBREC arrives and is processed by the context only
+                                events.push(Ev::In(Inbound::Ack { sel: 65535, deco: ok }));
+                                events.push(Ev::PollCtx);
+                            }
+                            events.push(Ev::DropOp { sel: 65535 });
+                            for i in pos..n {
+                                events.push(Ev::Start { h: 0, kind: filler(i), settle: false, solo: false });
+                            }
+                            events.push(Ev::Settle);
+                            // every acknowledgement, oldest outstanding first, until nothing is ackable
+                            for _ in 0..(n + 4) {
+                                events.push(Ev::In(Inbound::Ack { sel: 0, deco: ok }));
+                                events.push(Ev::Settle);
+                            }
+                            // the slot must be free again
+                            events.push(Ev::Start { h: 0, kind: OpKind::Pub1, settle: true, solo: false });
+                            events.push(Ev::Settle);
+                            crowded.push(Scenario { receive_max: r, max_packet_size: None, id_offset: 0, prologue: 0, events });
+                        }
+                    }
+                }
+            }
+        }
+    crowded
+}
+
 // ---------------------------------------------------------------------------------
 // C05
 
@@ -409,10 +465,12 @@ impl Property for C06 {
             1 => Just(vec![Ev::PollCtx]),
             1 => sel().prop_map(|sel| vec![Ev::PollOp { sel }]),
             1 => Just(vec![Ev::ReenterRun]),
+            // the caller gives up; the exchange on the wire goes on
+            1 => sel().prop_map(|sel| vec![Ev::DropOp { sel }, Ev::Settle]),
         ];
         // also under a small Receive Maximum / Maximum Packet Size: local refusals are part of the
         // statement, and a refusal must never hit an exchange that is already on the wire
-        (vec(ev, 1..tier.pick(40, 120)), id_offset(6), prologue_variant_no_inbound(), rm_small(), max_pkt())
+        let s = (vec(ev, 1..tier.pick(40, 120)), id_offset(6), prologue_variant_no_inbound(), rm_small(), max_pkt())
             .prop_map(|(evs, id_offset, prologue, receive_max, max_packet_size)| Scenario {
                 receive_max,
                 max_packet_size,
@@ -420,15 +478,21 @@ impl Property for C06 {
                 prologue,
                 events: evs.into_iter().flatten().collect(),
             })
-            .boxed()
+            .boxed();
+        crowd(s)
     }
 
     fn cases(tier: Tier) -> u32 {
         tier.pick(20_000, 150_000)
     }
 
+    /// publishes abandoned among 31..300 outstanding operations: the exchange on the wire goes on
+    fn exhaustive(tier: Tier, worker: usize, workers: usize) -> Box<dyn Iterator<Item = Scenario>> {
+        Box::new(crowded_cancellations(worker, workers, tier == Tier::Thorough).into_iter())
+    }
+
     fn assumptions() -> Vec<String> {
-        vec!["conformant broker (as C05); no local refusals: Receive Maximum 65535, no Maximum Packet Size".into()]
+        vec!["conformant broker (as C05); local refusals (small Receive Maximum / Maximum Packet Size) are part of the histories and predicted by the model".into()]
     }
 
     fn run(case: &Scenario) -> Outcome {
@@ -1431,56 +1495,7 @@ impl Property for C15 {
             Ev::DropOp { sel: 65535 },
             Ev::Settle,
         ];
-        // a cancellation while MANY other operations are outstanding (31, 32, 33, 64, 130, 300): the
-        // abandoned operation is the oldest / in the middle / the newest; cancelled before its first
-        // acknowledgement or (QoS 2) between the phases; Receive Maximum 1 or unlimited
-        let mut crowded = vec![];
-        let mut k = 0;
-        for n in [31usize, 32, 33, 64, 130, 300] {
-            for kind in [OpKind::Pub2, OpKind::Pub1, OpKind::Sub(0)] {
-                for between in [false, true] {
-                    for pos in [0usize, n / 2, n] {
-                        for r in [Some(1u16), None] {
-                            k += 1;
-                            if k % workers != worker || (between && kind != OpKind::Pub2) {
-                                continue;
-                            }
-                            let mut events = vec![];
-                            let filler = |i: usize| match i % 3 {
-                                0 => OpKind::Ping,
-                                1 => OpKind::Sub(0),
-                                _ => OpKind::Unsub(1),
-                            };
-                            for i in 0..pos {
-                                events.push(Ev::Start { h: 0, kind: filler(i), settle: false, solo: false });
-                            }
-                            events.push(Ev::Settle);
-                            events.push(Ev::Start { h: 0, kind, settle: false, solo: false });
-                            events.push(Ev::Settle); // written
-                            if between {
-                                // PUBREC arrives and is processed by the context only
-                                events.push(Ev::In(Inbound::Ack { sel: 65535, deco: ok }));
-                                events.push(Ev::PollCtx);
-                            }
-                            events.push(Ev::DropOp { sel: 65535 });
-                            for i in pos..n {
-                                events.push(Ev::Start { h: 0, kind: filler(i), settle: false, solo: false });
-                            }
-                            events.push(Ev::Settle);
-                            // every acknowledgement, oldest outstanding first, until nothing is ackable
-                            for _ in 0..(n + 4) {
-                                events.push(Ev::In(Inbound::Ack { sel: 0, deco: ok }));
-                                events.push(Ev::Settle);
-                            }
-                            // the slot must be free again
-                            events.push(Ev::Start { h: 0, kind: OpKind::Pub1, settle: true, solo: false });
-                            events.push(Ev::Settle);
-                            crowded.push(Scenario { receive_max: r, max_packet_size: None, id_offset: 0, prologue: 0, events });
-                        }
-                    }
-                }
-            }
-        }
+        let crowded = crowded_cancellations(worker, workers, tier == Tier::Thorough);
         Box::new(
             sequences(alphabet, tier.pick(5, 7), worker, workers)
                 .map(|events| Scenario { receive_max: Some(1), max_packet_size: None, id_offset: 0, prologue: 0, events })
